@@ -40,7 +40,7 @@ func shardFiles(maxLen int, shard []string, scalars bool) map[string][]byte {
 		"ShardSpec == ShardInit /\\ [][Next]_vars\n" +
 		"=============================================================================\n"
 	cfg := fmt.Sprintf("SPECIFICATION ShardSpec\nCONSTANTS\n  MaxLen = %d\n  FirstUnits <- MC_First\n  CopyInvalidVerbatim = FALSE\n  UintIDWraps = FALSE\n  EmitLines = TRUE\n"+
-		"INVARIANTS TypeOK ThmAccepted ThmValidUtf8 ThmDecodes ThmRuneAtIsRef ThmNoSilentWrap ThmRoundTripCloses ThmNonFinite ThmRanges\nACTION_CONSTRAINT Emit\nCHECK_DEADLOCK FALSE\n", maxLen)
+		"INVARIANTS TypeOK ThmAccepted ThmValidUtf8 ThmDecodes ThmRuneAtIsRef ThmNoSilentWrap ThmRoundTripCloses ThmNonFinite\nACTION_CONSTRAINT Emit\nCHECK_DEADLOCK FALSE\n", maxLen)
 	return map[string][]byte{"MC_JsonWriterShard.tla": []byte(tla), "MC_JsonWriterShard.cfg": []byte(cfg)}
 }
 
